@@ -26,7 +26,7 @@ SHARD_TIMEOUT = {"quick": 400, "thorough": 3000}
 def shards(tier, seed):
     out = []
     for kind in simgw.KINDS:
-        for cb in ("ok", "raise_some", "slow"):
+        for cb in ("ok", "raise_some", "slow", "reply"):
             for part in range(1 if tier == "quick" else 6):
                 out.append({"name": f"{kind}-{cb}-{part}", "kind": kind, "cb": cb, "part": part, "tier": tier, "seed": seed})
         out.append({"name": f"{kind}-allcuts", "kind": kind, "cb": "ok", "allcuts": True, "tier": tier, "seed": seed})
@@ -378,6 +378,18 @@ def judge(sim, stats, want, acc, kind, label, cuts, settings, cb, stream, undel,
     if any(e["k"] == "loop_monopoly" for e in sim.trace):
         acc.violation("receive-path-spins", f"{kind}: receive path spun without yielding", w)
         return
+    if cb == "reply" and kind != "actisense" and sim.conns and not settings.get("build_network_map"):      # (mapping clients also send ISO requests)
+        # every delivered message was answered from inside the callback: the answers are on the wire, whole and in number
+        from ..lib import NMEA2000Encoder
+        from .c13 import make_send_message
+        enc_ = NMEA2000Encoder()
+        one = b"".join({"ebyte": enc_.encode_ebyte, "waveshare": enc_.encode_usb, "yd": enc_.encode_yacht_devices}[kind](make_send_message(kind)))
+        # (the serial client's first write on every connection is its configuration packet)
+        written = b"".join(d for c_ in sim.conns for _, d in (c_.written[1:] if kind == "waveshare" else c_.written))
+        acc.count("replies_from_inside_the_callback_checked", sim.replies_sent)
+        if written != one * sim.replies_sent:
+            acc.violation("replies-from-callback-not-on-the-wire", f"{kind}: {sim.replies_sent} replies sent from inside the receive callback, {len(written)} bytes on the wire "
+                          f"instead of {len(one) * sim.replies_sent}", w)
     if got == want:
         acc.count("messages_delivered_and_compared", len(got))
         if len(cuts) in (1, 5, 7) or label.startswith("long"):
